@@ -195,10 +195,12 @@ func Execute(c *Case, chooser func(i int) sched.Chooser, record func(i int, star
 		if ex.Driver == "vet" {
 			out, st, err = driver.RunVet(w, &ex, chooser(i))
 		} else {
-			lk := fmt.Sprintf("%s/%d", spec.Variant, ex.ParseSeed)
+			sortedRoots := append([]string(nil), ex.Roots...)
+			sort.Strings(sortedRoots)
+			lk := fmt.Sprintf("%s/%d/%s", spec.Variant, ex.ParseSeed, strings.Join(sortedRoots, ","))
 			l := loaded[lk]
 			if l == nil {
-				l, err = driver.LoadAllOrder(w, ex.ParseSeed)
+				l, err = driver.LoadFor(w, ex.ParseSeed, ex.Roots) // only the roots and what they depend on is loaded
 				if err != nil {
 					return nil, 0, core.Infra("variant %s: %v", spec.Variant, err)
 				}
